@@ -67,6 +67,8 @@ fn main() {
             match prop.as_str() {
                 "C06" => ops_lex::gen_c06(&mut rng, if thorough { 40000 } else { 3000 }, &mut out),
                 "C07" => ops_lex::gen_c07(&mut rng, if thorough { 60000 } else { 4000 }, thorough, &mut out),
+                "C04" => ops_parse::gen_c04(&mut rng, if thorough { 6000 } else { 500 }, &mut out),
+                "C05" => ops_parse::gen_c05(&mut rng, if thorough { 20000 } else { 1500 }, &mut out),
                 "NEW" => ops_parse::gen_new(&mut rng, if thorough { 20000 } else { 2000 }, &mut out),
                 "PARSE" => ops_parse::gen_parse(&mut rng, if thorough { 20000 } else { 2000 }, &mut out),
                 "C19" => ops_codec::gen_c19(&mut rng, if thorough { 6000 } else { 500 }, &mut out),
